@@ -383,7 +383,7 @@ def pyth_args(rng):
     p = g_price_i64(rng)
     e = p if rng.random() < 0.5 else g_price_i64(rng)
     c = rng.choice([0, 0, rng.randrange(0, max(1, abs(p) // 50 + 1)), g_u64(rng)])
-    ec = rng.choice([0, c, g_u64(rng)])
+    ec = rng.choice([0, c, g_u64(rng), rng.randrange(0, max(1, abs(e) // 50 + 1))])
     return f"{p} {e} {c} {ec}"
 
 
@@ -525,13 +525,55 @@ def roundtrip(name, start, o):
 
 def pyth_vals(o):
     """'pbits ebits' -> (p, e) integers or None"""
-    t = o.split()
+    t = o.split()[:2]
     if len(t) != 2 or not all(is_num(x) for x in t):
         return None
     pb, eb = int(t[0]), int(t[1])
     if pb % ONE or eb % ONE:
         return "frac"
     return pb // ONE, eb // ONE
+
+
+def _gen_const(name, default):
+    """constants regenerated from /repo's source on every run (coq/gen/Constants.v)"""
+    import os, re
+    try:
+        txt = open(os.path.join(os.path.dirname(__file__), "..", "..", "coq", "gen", "Constants.v")).read()
+        m = re.search(r"Definition %s : Z := \((-?\d+)\)%%Z" % name, txt)
+        return int(m.group(1)) if m else default
+    except OSError:
+        return default
+
+
+CIM_BITS = _gen_const("CONF_INTERVAL_MULTIPLE", 596726950626591)      # 2.12
+MAXCI_BITS = _gen_const("MAX_CONF_INTERVAL", 14073748835533)          # 0.05
+
+
+def check_conf_scaled(what, o, args, pv):
+    """The adjusted feed's confidence is private; the low-biased prices (tokens 3 and 4) reveal it whenever the
+       95% interval is below the 5% cap: low = price - 2.12 * conf.  Price and confidence are floored products with
+       the SAME rate r, so  conf_out * price_in - conf_in * price_out > -price_in  exactly (no tolerance needed).
+       An adjusted confidence below that understates the interval and so overstates the low-biased price that
+       values the collateral (price x exact rate is exceeded)."""
+    t = o.split()
+    if len(t) != 4:
+        return None
+    for k, name in ((0, "spot"), (1, "ema")):
+        p_in, c_in, p_out, low = args[k], args[2 + k], pv[k], t[2 + k]
+        if p_in <= 0 or p_out <= 0 or not is_num(low):
+            continue
+        ci = p_out * ONE - int(low)
+        cap = (p_out * ONE * MAXCI_BITS) >> 48
+        if ci < 0:
+            return V("low-biased-price-above-price", f"{what} {name}: low-biased {low} above the price {p_out * ONE}")
+        if ci >= cap or ci % CIM_BITS:
+            continue                      # capped at 5% of the price: the confidence is not recoverable
+        c_out = ci // CIM_BITS
+        if c_out * p_in - c_in * p_out <= -p_in:
+            return V("adjusted-confidence-understated",
+                     f"{what} {name}: price {p_in} -> {p_out} but confidence {c_in} -> {c_out}: the interval shrank "
+                     f"more than the price, the low-biased price {low} exceeds (price - 2.12 conf) x rate")
+    return None
 
 
 def check_ratio_pipeline(what, in_vals, out_vals, L, Lq, qshift, C, dec_eff, tl, tc):
@@ -751,6 +793,9 @@ def oracle(suite, case, impl):
             if pv == "frac":
                 return V("harness-inconsistency", f"non-integer pyth price bits {o}")
             ins, outs = [args[0], args[1]], list(pv)
+            v = check_conf_scaled(f"{venue} {op}", o, args, pv)
+            if v:
+                return v
         else:
             tt = o.split()
             if len(tt) != 2 or not all(is_num(x) for x in tt):
@@ -781,6 +826,9 @@ def oracle(suite, case, impl):
             if pv == "frac":
                 return V("harness-inconsistency", f"non-integer pyth price bits {o}")
             outs = list(pv)
+            v = check_conf_scaled(f"Drift {op}", o, args, pv)
+            if v:
+                return v
         else:
             tt = o.split()
             if len(tt) != 2 or not all(is_num(x) for x in tt):
